@@ -293,22 +293,36 @@ GENF = {"x1": lambda x, T: x[0], "x1cx2": lambda x, T: x[0] * (T[1] - x[1]), "sq
 def general_call(ts, a, rng, S):
     W = [[rng.randint(-2, 3), rng.randint(-2, 3)] for _ in S]
     T = [sum(r[0] for r in W), sum(r[1] for r in W)]
-    fname = rng.choice(sorted(GENF))
+    fnames = [rng.choice(sorted(GENF)), rng.choice(sorted(GENF))]
     mode = rng.choice(["site", "branch", "node"])
     pol = rng.random() < 0.5
     sn = rng.random() < 0.5
     windows, warg = pick_windows(rng, a["L"])
+    form = rng.randrange(4)
+
+    def f(x):
+        vals = [GENF[fn](x, T) for fn in fnames]
+        if form == 0:
+            return np.array(vals, dtype=float)
+        if form == 1:
+            return vals                       # a plain list
+        if form == 2:                         # a strided view of a longer array
+            b = np.zeros(2 * len(vals), dtype=float)
+            b[::2] = vals
+            return b[::2]
+        b = np.zeros((len(vals), 3), dtype=float)     # a column of a 2-D table
+        b[:, 1] = vals
+        return b[:, 1]
 
     def run(w, wa):
-        r = np.array(ts.general_stat(np.array(W, dtype=float), lambda x: np.array([GENF[fname](x, T)], dtype=float), 1, windows=wa, mode=mode,
-                                     span_normalise=sn, polarised=pol, strict=False), dtype=float)
+        r = np.array(ts.general_stat(np.array(W, dtype=float), f, 2, windows=wa, mode=mode, span_normalise=sn, polarised=pol, strict=False), dtype=float)
         nw = len(w) - 1
         if mode == "node":
-            r = r.reshape((nw, ts.num_nodes))
-            return [[scaled(r[q][u], 1, (w[q + 1] - w[q]) if sn else 1) for u in range(ts.num_nodes)] for q in range(nw)]
-        r = r.reshape((nw, 1))
-        return [[scaled(r[q][0], 1, (w[q + 1] - w[q]) if sn else 1)] for q in range(nw)]
-    c = base("general", "general_stat", mode, polarised=1 if pol else 0, span_normalise=1 if sn else 0, windows=windows, weights=W, fname=fname,
+            r = r.reshape((nw, ts.num_nodes, 2))
+            return [[[scaled(r[q][u][j], 1, (w[q + 1] - w[q]) if sn else 1) for j in range(2)] for u in range(ts.num_nodes)] for q in range(nw)]
+        r = r.reshape((nw, 2))
+        return [[scaled(r[q][j], 1, (w[q + 1] - w[q]) if sn else 1) for j in range(2)] for q in range(nw)]
+    c = base("general", "general_stat", mode, polarised=1 if pol else 0, span_normalise=1 if sn else 0, windows=windows, weights=W, fnames=fnames,
              result=run(windows, warg))
     if mode != "node" and a["L"] > 1 and rng.random() < 0.5:
         fw = refine(rng, windows, a["L"])
@@ -332,9 +346,8 @@ def gnn_call(ts, a, rng, S):
 
 
 def meandesc_call(ts, a, rng, S):
-    nodes = list(range(ts.num_nodes))
-    pool = S if rng.random() < 0.6 else nodes
-    sets = disjoint_sets(rng, pool, rng.randint(1, 3))
+    # the documented definition speaks of the *samples* in each sample set: reference sets are drawn from the samples
+    sets = disjoint_sets(rng, S, rng.randint(1, 3), cover=rng.random() < 0.5)
     if sets is None:
         return None
     r = np.array(ts.mean_descendants(sets), dtype=float).reshape((ts.num_nodes, len(sets)))
@@ -361,6 +374,58 @@ def _ancestors(t, u):
     while u != tskit.NULL:
         yield u
         u = t.parent(u)
+
+
+def ts_kc_case(rng):
+    """TreeSequence.kc_distance is the span-weighted average of Tree.kc_distance over the intersected trees (a sum of square roots: evaluated
+    here in floating point over Tree-level values, which TLC validates through the treedist calls)"""
+    n = rng.randint(3, 5)
+    K = rng.randint(2, 5)
+    out = []
+    for _ in range(2):
+        for _try in range(20):
+            a = gen.coalescent_abstract(rng, nleaves=n, ninternal=n - 1, K=K, p_keep=0.5, p_join=1.0)
+            ts = gen.build_tables(a).tree_sequence()
+            if all(t.num_roots == 1 and all(t.num_children(u) != 1 for u in t.nodes()) for t in ts.trees()) and ts.num_samples == n:
+                break
+        else:
+            return None
+        out.append((a, ts))
+    (a1, ts1), (a2, ts2) = out
+    ok = 1
+    for lam in (0.0, 0.3, 0.5, 1.0):
+        got = float(ts1.kc_distance(ts2, lam))
+        want = sum(float(ts1.at(x + 0.5, sample_lists=True).kc_distance(ts2.at(x + 0.5, sample_lists=True), lam)) for x in range(K)) / K
+        if abs(got - want) > 1e-9 * max(1.0, abs(want)):
+            ok = 0
+    call = base("derived", "ts_kc_distance", "tree", ok=ok)
+    # the Tree-level ingredients of the first tree sequence are validated by TLC
+    calls = [call]
+    for _ in range(2):
+        c = treedist_call(ts1, a1, rng, list(range(n)))
+        if c:
+            calls.append(c)
+    return dict(ts=dict(L=a1["L"], time=a1["time"], flags=a1["flags"], edges=a1["edges"], sites=[], muts=[]), calls=calls)
+
+
+def relvec_call(ts, a, rng, S):
+    """genetic_relatedness_vector(W) = C @ W with C the matrix of genetic_relatedness between the single samples (same mode, centre and
+    span normalisation; TLC validates genetic_relatedness itself); evaluated in floating point"""
+    if len(S) < 2 or len(S) > 5:
+        return None
+    W = np.array([[rng.randint(-2, 3), rng.randint(-2, 3)] for _ in S], dtype=float)
+    centre = rng.random() < 0.5
+    windows, warg = pick_windows(rng, a["L"])
+    nw = len(windows) - 1
+    pairs = [(i, j) for i in range(len(S)) for j in range(len(S))]
+    oks = {}
+    for sn in (False, True):
+        v = np.array(ts.genetic_relatedness_vector(W, windows=warg, mode="branch", span_normalise=sn, centre=centre), dtype=float).reshape((nw, len(S), 2))
+        C = np.array(ts.genetic_relatedness([[s_] for s_ in S], indexes=pairs, windows=warg, mode="branch", span_normalise=sn, centre=centre,
+                                            proportion=False), dtype=float).reshape((nw, len(S), len(S)))
+        oks[sn] = all(np.allclose(v[q], C[q] @ W, rtol=1e-9, atol=1e-9) for q in range(nw))
+    return base("derived", "genetic_relatedness_vector", "branch", centre=1 if centre else 0, windows=windows, ok=1 if (oks[False] and oks[True]) else 0,
+                ok_unnormalised=1 if oks[False] else 0, ok_normalised=1 if oks[True] else 0)
 
 
 def gap_paircoal_case(rng):
@@ -406,17 +471,17 @@ def treedist_call(ts, a, rng, S):
     # the KC metric is defined on trees whose labelled nodes are tips of the sample genealogy: a sample that is an ancestor of another
     # sample has no documented treatment (the library leaves such pairs at 0), so those trees are not compared (DESIGN 10.1)
     nested = any(t.parent(u) != tskit.NULL and any(v != u and t.is_sample(v) for v in _ancestors(t, u)) for t in (t1, t2) for u in ts.samples())
-    for lam in (0.0, 1.0):
+    for lam in (0.0, 0.5, 1.0):
         if nested:
             kc.append(-1)
             continue
         try:
             v = float(t1.kc_distance(t2, lam))
-            sq = v * v
+            sq = 4 * v * v
             kc.append(int(round(sq)) if abs(sq - round(sq)) < 1e-6 * max(1.0, sq) else -2)
         except tskit.LibraryError:
             kc.append(-1)   # documented refusals: unary nodes
-    return base("treedist", "treedist", "tree", x=x, y=y, rx=int(t1.root), ry=int(t2.root), rf=rf, kc0=kc[0], kc1=kc[1])
+    return base("treedist", "treedist", "tree", x=x, y=y, rx=int(t1.root), ry=int(t2.root), rf=rf, kc0=kc[0], kch=kc[1], kc1=kc[2])
 
 
 def ld_case(rng):
@@ -523,7 +588,7 @@ def grw_call(ts, a, rng, S):
     return c
 
 
-EXTRA = [traitcov_call, grw_call, afs_call, afs_call, fst_call, relatedness_call, general_call, general_call, gnn_call, meandesc_call, paircoal_call, treedist_call]
+EXTRA = [relvec_call, traitcov_call, grw_call, afs_call, afs_call, fst_call, relatedness_call, general_call, general_call, gnn_call, meandesc_call, paircoal_call, treedist_call]
 
 
 def nonzero(r):
@@ -626,6 +691,10 @@ def run():
             cases.append(c)
     for _ in range(40 if QUICK else 1000):
         cases.append(gap_paircoal_case(rng))
+    for _ in range(40 if QUICK else 1000):
+        c = ts_kc_case(rng)
+        if c:
+            cases.append(c)
     # binding self-test: one recorded value of one call of each kind is changed; TLC must reject exactly those
     corrupted = []
     seen_kinds = {}
@@ -652,7 +721,7 @@ def run():
                 x["result"][0][0] = [x["result"][0][0][0] + 1, x["result"][0][0][1] + 2]
             elif x["kind"] == "paircoal" and x["span_normalise"]:
                 x["result"][0][0][0] = [x["result"][0][0][0][0] + 1, x["result"][0][0][0][1] + 2]
-            elif x["kind"] == "paircoal" or x["mode"] == "node" and x["kind"] == "count":
+            elif x["kind"] == "paircoal" or x["mode"] == "node" and x["kind"] in ("count", "general"):
                 x["result"][0][0][0] += 1
             else:
                 x["result"][0][0] += 1
@@ -675,14 +744,28 @@ def run():
                       any(nonzero(x.get("result")) or x["kind"] in ("treedist", "ld", "derived") for x in c["calls"]))
         f = verdicts[c["id"]]
         if f:
-            chk.violation("trace rejected by Trace_Stats: %s %s" % (sorted(f), st["eval_errors"].get(c["id"], "")[-300:]), c)
+            # failing clauses that belong to a listed finding (each decided on the recorded call itself); anything else is new
+            known = {}
+            if "genetic_relatedness_vector_branch_relation" in f and all(
+                    x["ok_unnormalised"] == 1 and x["ok_normalised"] == 0 for x in c["calls"] if x["stat"] == "genetic_relatedness_vector" and x["ok"] == 0):
+                known["genetic_relatedness_vector_branch_relation"] = "relatedness-vector-ignores-span-normalise"
+            if "mean_descendants_tree_values" in f:
+                smp = {u for u, fl in enumerate(c["ts"]["flags"]) if fl}
+                if all((not smp <= {u for s_ in x["sets"] for u in s_}) for x in c["calls"] if x["kind"] == "meandesc"):
+                    known["mean_descendants_tree_values"] = "mean-descendants-denominator-reference-nodes"
+            msg = "trace rejected by Trace_Stats: %s %s" % (sorted(f), st["eval_errors"].get(c["id"], "")[-300:])
+            if set(f) <= set(known):
+                for sg in sorted(set(known.values())):
+                    chk.violation(msg, c, signature=sg)
+            else:
+                chk.violation(msg, c)
         else:
             chk.traces += 1
     chk.extra.update(cases=len(cases), calls=sum(len(c["calls"]) for c in cases), call_kinds=len(hist), chunk_layouts=nchunk,
                      threaded_calls=sum(1 for c in cases for x in c["calls"] if x["threaded"]),
                      refinement_checks=sum(1 for c in cases for x in c["calls"] if x["fine_windows"]),
                      calls_by_statistic=dict(sorted(hist.items())),
-                     kc_compared=sum(1 for c in cases for x in c["calls"] if x["kind"] == "treedist" for q in ("kc0", "kc1") if x[q] >= 0),
+                     kc_compared=sum(1 for c in cases for x in c["calls"] if x["kind"] == "treedist" for q in ("kc0", "kch", "kc1") if x[q] >= 0),
                      ld_pairs=sum(len(x["pairs"]) for c in cases for x in c["calls"] if x["kind"] == "ld"))
     c = cases[0]
     chk.sample(dict(ts=c["ts"], call={k: v for k, v in c["calls"][0].items() if k not in ("fine_result",)}))
